@@ -129,10 +129,26 @@ class Case:
         style = rng.choice(["rand", "rand", "ramp", "cycle"])
         vals = self.raw_values(t, n, style)
         big = frag["big"]
-        data = b"".join(struct.pack((">" if big else "<") + CODES[t], v) for v in vals)
-        if SIZES[t] > 1 and rng.random() < 0.1:
-            data += bytes(rng.randrange(256) for _ in range(rng.randrange(1, SIZES[t])))   # partial trailing sample
-        self.files[name] = data
+        enc = frag.get("enc", "none")
+        if enc == "text":
+            # one value per line; float32 values are written with enough digits to convert back exactly
+            data = "".join(("%s\n" % (repr(float(v)) if t >= 8 else str(v))) for v in vals).encode()
+            self.files[name + ".txt"] = data
+        else:
+            data = b"".join(struct.pack((">" if big else "<") + CODES[t], v) for v in vals)
+            if enc == "none" and SIZES[t] > 1 and rng.random() < 0.1:
+                data += bytes(rng.randrange(256) for _ in range(rng.randrange(1, SIZES[t])))   # partial trailing sample
+            if enc == "gzip":
+                import gzip
+                self.files[name + ".gz"] = gzip.compress(data)
+            elif enc == "bzip2":
+                import bz2
+                self.files[name + ".bz2"] = bz2.compress(data)
+            elif enc == "lzma":
+                import lzma
+                self.files[name + ".xz"] = lzma.compress(data, format=lzma.FORMAT_XZ)
+            else:
+                self.files[name] = data
         frag["lines"].append("%s RAW %s %d" % (name, TYPES[t], spf))
         mask = (1 << (8 * SIZES[t])) - 1
         hexs = []
@@ -306,10 +322,11 @@ class Case:
 
     def build(self):
         rng = self.rng
-        main = {"fo": rng.choice([0, 0, 0, 1, 2, 3]), "big": False, "lines": []}
+        encs = ["none"] * 6 + ["gzip", "bzip2", "lzma", "text"]
+        main = {"fo": rng.choice([0, 0, 0, 1, 2, 3]), "big": False, "lines": [], "enc": rng.choice(encs)}
         frags = [main]
         if not self.simple and rng.random() < 0.5:
-            frags.append({"fo": rng.choice([0, 1, 2, 3, 5]), "big": rng.random() < 0.5, "lines": []})
+            frags.append({"fo": rng.choice([0, 1, 2, 3, 5]), "big": rng.random() < 0.5, "lines": [], "enc": rng.choice(encs)})
         nraw = rng.choice([2, 3, 3, 4, 5])
         for i in range(nraw):
             self.add_raw(frags[i % len(frags)] if i else main)
@@ -317,14 +334,14 @@ class Case:
         nder = rng.choice([4, 6, 8, 10, 12])
         for _ in range(nder):
             self.add_derived(main)
-        hdr = ["/ENCODING none", "/ENDIAN little"]
+        hdr = ["/ENCODING %s" % main["enc"], "/ENDIAN little"]
         if main["fo"]:
             hdr.append("/FRAMEOFFSET %d" % main["fo"])
         # RAW of included fragments must exist before use: INCLUDE first
         inc = []
         for k, fr in enumerate(frags[1:]):
             fn = "sub%d.format" % k
-            sl = ["/ENCODING none", "/ENDIAN %s" % ("big" if fr["big"] else "little")]
+            sl = ["/ENCODING %s" % fr["enc"], "/ENDIAN %s" % ("big" if fr["big"] else "little")]
             sl.append("/FRAMEOFFSET %d" % fr["fo"])      # explicit: an included fragment inherits the parent's otherwise
             self.files[fn] = ("\n".join(sl + fr["lines"]) + "\n").encode()
             inc.append("/INCLUDE %s" % fn)
@@ -725,7 +742,7 @@ def main():
     chk.assumptions += [
         "counts are far below GD_TRANSACTION_MAX and 2^31 (the (int) cast of num_samp2 and the 2^63 range checks are not modelled)",
         "real-valued data only (no COMPLEX64/128 RAW, no complex scalars, no representation suffixes)",
-        "unencoded RAW files (the codecs are C02/C04's subject); LINTERP tables strictly increasing, entering the model as parsed rows",
+        "RAW files unencoded, gzip, bzip2, lzma or text per fragment (the model sees decoded samples; SIE/flac/slim/zzip not covered); LINTERP tables strictly increasing, entering the model as parsed rows",
         "MPLEX look-back unlimited (gd_mplex_lookback(GD_LOOKBACK_ALL)); the last-sample cache is not modelled (each query is also correct without it)",
         "first_sample >= 0 at the public entry (GD_HERE is C17's subject)",
         "samples at negative positions reaching an MPLEX are implementation dependent by dirfile-format(5) and not judged",
